@@ -15,9 +15,9 @@ theorem scale_roundtrip (s : Option Scale) (h : s ≠ some .uniformDiscrete) :
   | none => rfl
   | some v => cases v <;> first | rfl | exact absurd rfl h
 
-theorem readDflt_ok {α : Type} [BEq α] (cfg : Cfg) (truthy : α → Bool) (z : α) (d : Option α)
-    (hz : ∀ x, truthy x = false → d = some x → (cfg.defaultHasField = true))
-    : readDflt cfg truthy d = d := by
+theorem readDflt_ok {α : Type} (cfg : Cfg) (truthy : α → Bool) (d : Option α)
+    (hz : ∀ x, truthy x = false → d = some x → (cfg.defaultHasField = true)) :
+    readDflt cfg truthy d = d := by
   unfold readDflt
   by_cases hc : cfg.defaultHasField = true
   · simp [hc]
@@ -42,7 +42,7 @@ theorem hdr_roundtrip (cfg : Cfg) (h : Hdr) (hw : h.wf = true) (hd : h.dom.dfltO
     simp only [Dom.dfltOk, Bool.or_eq_true, bne_iff_ne, ne_eq] at hd
     simp only
     congr 1
-    apply readDflt_ok cfg _ 0
+    apply readDflt_ok cfg
     intro x hx hdx
     rcases hd with hd | hd
     · exact hd
@@ -51,7 +51,7 @@ theorem hdr_roundtrip (cfg : Cfg) (h : Hdr) (hw : h.wf = true) (hd : h.dom.dfltO
     simp only [Dom.dfltOk, Bool.or_eq_true, bne_iff_ne, ne_eq] at hd
     simp only
     congr 1
-    apply readDflt_ok cfg _ 0
+    apply readDflt_ok cfg
     intro x hx hdx
     rcases hd with hd | hd
     · exact hd
@@ -62,7 +62,7 @@ theorem hdr_roundtrip (cfg : Cfg) (h : Hdr) (hw : h.wf = true) (hd : h.dom.dfltO
     simp only
     rw [sortBy_of_sorted ltRat vs hdom.2, sortBy_of_sorted ltRat vs hdom.2]
     congr 1
-    apply readDflt_ok cfg _ 0
+    apply readDflt_ok cfg
     intro x hx hdx
     rcases hd with hd | hd
     · exact hd
@@ -73,7 +73,7 @@ theorem hdr_roundtrip (cfg : Cfg) (h : Hdr) (hw : h.wf = true) (hd : h.dom.dfltO
     simp only
     rw [sortBy_of_sorted ltStr vs hdom.2]
     congr 1
-    apply readDflt_ok cfg _ ""
+    apply readDflt_ok cfg
     intro x hx hdx
     rcases hd with hd | hd
     · exact hd
